@@ -134,6 +134,8 @@ def exhaustive_case(case, fail):
     compare(bs_prod(to_rep(P, ra, '2d'), to_rep(P, rb, '2d')), want, fail,
             f'n={n} {ra}[2d] x {rb}[2d]')
     evals += want.size
+    same = to_rep(P, ra, '2d')
+    compare(bs_prod(same, same), want, fail, f'n={n} same object twice: {ra}[2d]')
     for i in range(len(P)):
         one = P[i:i + 1]
         # 2-D x 1-D -> length = rows
@@ -196,6 +198,12 @@ def stack_case(case, fail):
     sb = '2d' if (len(B) > 1 or case['b2d']) else '1d'
     compare(bs_prod(to_rep(A, ra, sa), to_rep(B, rb, sb)), want, fail,
             f'n={n} {ra}[{sa}]{A.shape} x {rb}[{sb}]{B.shape}')
+    # a stack against itself, handed over as one and the same object (how a
+    # parity-check matrix is tested for commuting rows: bs_prod(H, H))
+    for M_, r_, sh_ in ((A, ra, sa), (B, rb, sb)):
+        obj = to_rep(M_, r_, sh_)
+        compare(bs_prod(obj, obj), ref_table(M_, M_), fail,
+                f'n={n} same object twice: {r_}[{sh_}]{M_.shape}')
     # symmetry, alternation, bilinearity through the library
     compare(bs_prod(to_rep(B, rb, sb), to_rep(A, ra, sa)), want.T, fail, 'symmetry')
     AA = np.asarray(bs_prod(to_rep(A, ra, '2d'), to_rep(A, rb, '2d')))
